@@ -2,6 +2,8 @@
 # Harnesses live in ovl_rdb.rs (child of rdb.rs); ovl_rdb_engine.rs (child of engine.rs) only adds
 # inherent vr_* builders/observers for engine states (no engine operation involved in them).
 group("rdb", family="vec", shrinks={"MAX_LEVEL": 4, "SHARDS_PER_DATABASE": 1},
+      # compile-only: the harnesses carry more #[kani::stub] attributes than the default macro recursion limit allows
+      subst=[(r"\A", '#![recursion_limit = "512"]\n', "src/lib.rs")],
       overlays={"src/storage/rdb.rs": "ovl_rdb.rs", "src/storage/engine.rs": "ovl_rdb_engine.rs"})
 
 RDB_IO = ["RdbWriter<W>/RdbReader<R> instantiated with W = fixed-capacity in-memory buffer, R = &[u8] (the code is generic over Write/Read)"]
@@ -21,6 +23,8 @@ K("c09_strcodec_0to3", "rdb", ["C09"], tier="quick", timeout=600,
   encodes=["RdbWriter::write_string", "RdbWriter::write_length", "RdbWriter::write_raw", "RdbReader::read_string", "RdbReader::read_length"],
   bounds="payload lengths concrete {0,1,2,3}, bytes symbolic; unwind 10", stubs=FMT + RX, assumptions=RDB_IO, native_replay=False)
 
+# NOTE: every *_kf harness is tier "thorough" until its finding id is listed in known_findings.json (or the code is
+# fixed); they take 20-80 s each and belong into the quick tier afterwards.
 ENG = STD_STUBS + FMT + RX
 REC_ENC = ["RdbWriter::write_key_value", "RdbWriter::write_string", "RdbWriter::write_length", "RdbReader::read_key_value_with_type", "RdbReader::read_string", "RdbReader::read_length"]
 REC_AS = RDB_IO + ["reader side = the value-type arm of load_into's dispatch (read_byte, then read_key_value_with_type with ttl None) into a directly built empty engine (1 db, 16 shards)"]
@@ -28,15 +32,68 @@ K("c09_rec_string", "rdb", ["C09"], tier="quick", timeout=900,
   desc="string record round trip: write_key_value into memory, load into an empty engine: same key, type, bytes; no TTL invented; record consumed exactly",
   encodes=REC_ENC + ["StorageEngine::set_string", "StorageEngine::set_value"], bounds="key 1 symbolic byte, value 2 symbolic bytes; unwind 6",
   stubs=ENG, assumptions=REC_AS, native_replay=False)
-K("c09_rec_list", "rdb", ["C09"], tier="quick", timeout=900,
-  desc="list record round trip: 2 elements of 1 arbitrary byte (duplicates allowed): same order and content",
+REC = ["StorageEngine::{set_string,set_string_ex,rpush,sadd,hset,zadd,xadd_with_id,expire} -> recording stubs: the harness decides that the reader issues exactly the engine calls that rebuild the saved value (key, elements, order, scores, expire last); the effect of those calls on an engine is decided by the engine-level properties, not here"]
+REC_AS2 = RDB_IO + ["reader side = the value-type arm of load_into's dispatch (read_byte, then read_key_value_with_type) with an ARBITRARY ttl argument (None or any u64 milliseconds), as read_key_value_with_expiry may pass it"]
+K("c09_e2e_list", "rdb", ["C09"], tier="thorough", timeout=2400, fs_array=4096,
+  desc="list record round trip END TO END through the real engine (two chained rpush): 2 elements of 1 arbitrary byte: same order and content, no TTL invented",
   encodes=REC_ENC + ["StorageEngine::rpush"], bounds="key 1 symbolic byte, 2 elements x 1 symbolic byte; unwind 6",
   stubs=ENG, assumptions=REC_AS, native_replay=False)
-K("c09_rec_set", "rdb", ["C09"], tier="quick", timeout=900,
-  desc="set record round trip: 2 distinct members of 1 arbitrary byte: same members",
-  encodes=REC_ENC + ["StorageEngine::sadd"], bounds="key 1 symbolic byte, 2 distinct members x 1 symbolic byte; unwind 6",
-  stubs=ENG, assumptions=REC_AS, native_replay=False)
-K("c09_rec_hash", "rdb", ["C09"], tier="quick", timeout=900,
-  desc="hash record round trip: 2 distinct fields with 1-byte values: same field->value map",
-  encodes=REC_ENC + ["StorageEngine::hset"], bounds="key 1 symbolic byte, 2 distinct fields x 1 symbolic byte, values 1 symbolic byte; unwind 6",
-  stubs=ENG, assumptions=REC_AS, native_replay=False)
+K("c09_rec_list", "rdb", ["C09"], tier="quick", timeout=900, fs_array=4096,
+  desc="list record round trip: 2 elements of 1 arbitrary byte (duplicates allowed): reader appends the same elements in the same order (one rpush each), then expire(key, ttl) iff a TTL was given",
+  encodes=REC_ENC, bounds="key 1 symbolic byte, 2 elements x 1 symbolic byte, ttl None or any u64 ms; unwind 6",
+  stubs=ENG + REC, assumptions=REC_AS2, native_replay=False)
+K("c09_rec_set", "rdb", ["C09"], tier="quick", timeout=900, fs_array=4096,
+  desc="set record round trip: 2 members (lengths 1 and 2, arbitrary bytes): one sadd with exactly these members, then expire iff TTL",
+  encodes=REC_ENC, bounds="key 1 symbolic byte, members of 1 and 2 symbolic bytes, ttl None or any u64 ms; unwind 6",
+  stubs=ENG + REC, assumptions=REC_AS2, native_replay=False)
+K("c09_rec_hash", "rdb", ["C09"], tier="quick", timeout=900, fs_array=4096,
+  desc="hash record round trip: 2 fields (lengths 1 and 2) with 1-byte values: one hset with exactly these pairs, then expire iff TTL",
+  encodes=REC_ENC, bounds="key 1 symbolic byte, fields of 1 and 2 symbolic bytes, values 1 symbolic byte, ttl None or any u64 ms; unwind 6",
+  stubs=ENG + REC, assumptions=REC_AS2, native_replay=False)
+
+WALL = ["std::time::SystemTime::now -> wall clock set by the harness (symbolic T_save <= T_load, seconds in [0, 2^40))"]
+RKVT = ["RdbReader::read_key_value_with_type -> recording stub (value type, ttl argument); the per-type arms are decided by the c09_rec_* harnesses for an arbitrary ttl argument"]
+TTL_ENC = ["RdbWriter::write_key_value (expiry prefix)", "RdbWriter::write_u64_le", "RdbReader::read_u64_le", "RdbReader::read_key_value_with_expiry"]
+TTL_B = "key 1 byte, value 1 byte, T_save and T_load symbolic (ns resolution, 0 <= s < 2^40, T_load >= T_save), ttl symbolic Duration < 2^40 s; unwind 10"
+K("c09_ttl_future_rest", "rdb", ["C09"], tier="quick", timeout=900,
+  desc="TTL across save/load, region deadline > load time: the saved wall-clock deadline is the exact one to clock granularity (<2 ms early, never late) and the loader passes on exactly deadline - load time (ms) as the TTL",
+  encodes=TTL_ENC, bounds=TTL_B, stubs=ENG + WALL + RKVT, assumptions=RDB_IO, native_replay=False)
+K("c09_ttl_elapsed_kf", "rdb", ["C09"], tier="thorough", timeout=900, expect="kf:KF-C09-ttl-elapsed",
+  desc="TTL across save/load, region deadline <= load time (expired while the server was down): the key must be absent; ferrous loads it with ttl None, i.e. as a persistent key",
+  encodes=TTL_ENC, bounds=TTL_B, stubs=ENG + WALL + RKVT, assumptions=RDB_IO, native_replay=False)
+
+# ------------------------------------------------------------------ C10
+ALLOCW = ["alloc::vec::from_elem (vec![x; n]) and Vec::with_capacity -> wrapper: CHECK mode asserts n <= bytes present in the input; MODEL mode builds the vector with a concrete size per case and, for n > bytes present, a vector longer than the input so that the following read_exact fails as in the real code"]
+K("c10_alloc_read_string_kf", "rdb", ["C10", "C06"], tier="thorough", timeout=600, expect="kf:KF-C10-read-string-alloc",
+  desc="allocation obligation at RdbReader::read_string: the vec![0u8; len] is sized by the length field of the file without comparing it with the bytes present (up to 4 GiB zeroed per string header)",
+  encodes=["RdbReader::read_string", "RdbReader::read_length"], bounds="5 arbitrary bytes (1-, 2- and 5-byte length encodings); unwind 14",
+  stubs=FMT + RX + ALLOCW, assumptions=RDB_IO, native_replay=False)
+RECF = ["StorageEngine::{set_string,set_string_ex,rpush,sadd,hset,zadd,xadd_with_id,expire} -> stubs that ignore their arguments and return Ok, or Err at an arbitrary call (engine state is not part of loader totality)"]
+RSC = ["RdbReader::read_string -> contract stub: consumes exactly like read_string (same Ok/Err, same reader position), returns a 1-byte vector (first payload byte, 0 if the payload is empty), hence never the stream marker; the contract is decided on the real function by c10_total_read_string; string contents steer control flow only in the stream-marker branch (own harness)"]
+TOT_AS = RDB_IO + ["one record: read_key_value_with_type called directly with the concrete type byte (load_into's dispatch loop has its own harness c10_loop_trunc)", "db and ttl arguments arbitrary"]
+K("c10_total_read_string", "rdb", ["C10", "C06"], tier="quick", timeout=900,
+  desc="read_string/read_length on arbitrary bytes, every prefix length: Ok(v) => header + exactly v.len() payload bytes consumed and returned verbatim; Err otherwise; no panic",
+  encodes=["RdbReader::read_string", "RdbReader::read_length", "RdbReader::read_u32_be", "RdbReader::read_byte"],
+  bounds="7 symbolic bytes, symbolic prefix length n <= 7; unwind 10", stubs=FMT + RX + ALLOCW, assumptions=RDB_IO, native_replay=False)
+K("c10_total_string", "rdb", ["C10", "C06"], tier="quick", timeout=1200,
+  desc="loader totality for value type 0 (string) with the REAL read_string: arbitrary bytes, every prefix length: Ok or Err, no panic / overflow / out-of-bounds",
+  encodes=["RdbReader::read_key_value_with_type", "RdbReader::read_string", "RdbReader::read_length"],
+  bounds="6 symbolic bytes, symbolic prefix length n <= 6, engine call failing at call 1..3 or never; unwind 10",
+  stubs=ENG + RECF + ALLOCW + WALL, assumptions=TOT_AS, native_replay=False)
+# c10_total_set / c10_total_zset / c10_total_hash (ovl_rdb.rs) are NOT registered: symbolic element counts make the
+# per-element allocations symbolic; they did not finish within 700 s / 14 GB even with 5 input bytes.
+K("c10_total_badtype", "rdb", ["C10", "C06"], tier="quick", timeout=900,
+  desc="every value-type byte outside 0..=5 is refused with Err, no value arm is entered (read_string replaced by an assert(false) stub), nothing is stored",
+  encodes=["RdbReader::read_key_value_with_type"], bounds="type byte symbolic over 6..=255, 4 symbolic bytes; unwind 6",
+  stubs=ENG + RECF + ALLOCW + WALL, assumptions=TOT_AS, native_replay=False)
+
+# c10_loop_trunc / c10_loop_eof (load_into dispatch loop) are NOT registered: out of memory / timeout even with 3 input bytes.
+FW = ["W = sink whose n-th write call fails (n symbolic, or never), accepting whole buffers otherwise (write_all = one write call)"]
+for nm, what, b in (("list", "list of 2 one-byte elements", "8 write calls"), ("hash", "hash with one pair", "8 write calls"), ("string_ttl", "string with TTL (expiry prefix)", "7 write calls"), ("frame", "db selector, resize hint, EOF, checksum", "7 write calls")):
+    K("c10_wfault_" + nm, "rdb", ["C10"], tier="quick", timeout=900,
+      desc="writer under faults, %s: if the n-th write fails the record writer returns Err, attempts no further write, and bytes_written counts exactly the accepted bytes; without fault Ok and the full number of writes" % what,
+      encodes=["RdbWriter::write_key_value", "RdbWriter::write_string", "RdbWriter::write_length", "RdbWriter::write_raw", "RdbWriter::write_db_selector/write_resize_db/write_eof/write_checksum"],
+      bounds="%s, failure point symbolic over all of them or none" % b, stubs=ENG + (WALL if nm == "string_ttl" else []), assumptions=FW, native_replay=False)
+K("c09_list_marker_kf", "rdb", ["C09"], tier="thorough", timeout=900, fs_array=4096, expect="kf:KF-C09-list-marker",
+  desc="region: a LIST whose first element is the 25-byte internal marker __FERROUS_STREAM_MARKER__: it must be restored as that list; ferrous' loader takes it for a stream and issues no rpush (the key vanishes)",
+  encodes=REC_ENC, bounds="concrete 25-byte element, key 1 symbolic byte; unwind 28", stubs=ENG + REC, assumptions=REC_AS2, native_replay=False)
